@@ -23,6 +23,8 @@ mod socket;
 mod tcp;
 mod udp;
 mod uds;
+#[cfg(feature = "verif-hooks")]
+pub mod verif;
 
 // for shims
 pub use socket::{Addr, Domain, Fd, SocketOption, SocketOptionKind, Type};
